@@ -52,13 +52,16 @@ ASSUMPTIONS = [
     "and_(HasType(v, T), c) evaluates c once per value of v with v bound; not_(c) complements c; set_of returns the "
     "bindings of the selected variables (C01/C02's subject, used here only as the frame around the call)",
     "only positional-or-keyword parameters (no *args/**kwargs/keyword-only/positional-only); arguments are query "
-    "variables with explicit domains or ordinary objects (no attribute chains); truthy domain values "
-    "(falsy bound values are finding F-C01-3)",
+    "variables with explicit domains or ordinary objects (no attribute chains); a variable is only ever read as an "
+    "argument of the call or of HasType, never as a comparator operand (a falsy bound value read by a comparator is "
+    "finding F-C01-3)",
 ]
 RULE = ("exhaustive small scope: every signature of arity 1..4 (quick) / 1..5 (thorough) with every trailing set of "
         "defaults, every set of supplied parameters Python accepts, every positional/keyword split, every "
         "variable/object pattern, for plain functions, methods and Predicate subclasses, with seeded domains, "
-        "variable sharing, pre-bound variables, negation and keyword order; plus random cases of arity up to 5; "
+        "variable sharing, pre-bound variables, negation and keyword order; plus random cases of arity up to 5; plus a "
+        "falsy-value stream (0, False, a falsy object, '', [] as domain values, literals and pre-bound arguments, "
+        "positively and under not_, deterministic small family + random shapes); "
         "non-trivial = the call is symbolic and the result set is neither empty nor every candidate binding, or the "
         "call is concrete with at least two parameters; distinct by case text")
 EXHAUSTIVE = True
@@ -81,7 +84,7 @@ class Spec:
         self.neg = neg
         self.salt = salt
         self.mod = mod
-        self.vals = vals  # obj | int
+        self.vals = vals  # obj | int | intF | fobj | str | list  (how a number becomes a Python value)
 
     def line(self) -> str:
         def a(x):
@@ -120,6 +123,15 @@ class Spec:
             t.append("neg")
         if len(w) < len(self.params):
             t.append("default-used")
+        if self.vals in FALSY_FLAVOURS and self.vals != "int" or any(0 in d for d in self.doms.values()):
+            t.append("vals-" + self.vals)
+        zero_vars = {i for i, d in self.doms.items() if 0 in d}
+        if zero_vars:
+            t.append("falsy-domain")
+        if zero_vars & set(self.pre):
+            t.append("falsy-prebound")
+        if any(a == ("l", 0) for a in w):
+            t.append("falsy-literal")
         return tuple(t)
 
 
@@ -195,7 +207,8 @@ def _call_shapes(n: int, nd: int):
             yield supplied, k
 
 
-def _fill(rng, kind, n, nd, supplied, k, pattern, *, share=None, pre=None, neg=None, max_dom=3) -> Spec:
+def _fill(rng, kind, n, nd, supplied, k, pattern, *, share=None, pre=None, neg=None, max_dom=3,
+          falsy=False, vals=None) -> Spec:
     names = NAMES[:n]
     if rng.random() < 0.3:
         names = rng.sample(["a", "b", "c", "d", "obj", "other", "x_", "value", "name", "type_"], n)
@@ -213,7 +226,7 @@ def _fill(rng, kind, n, nd, supplied, k, pattern, *, share=None, pre=None, neg=N
     args = []
     it = iter(ids)
     for is_var in pattern:
-        args.append(("v", next(it)) if is_var else ("l", rng.randrange(1, 5)))
+        args.append(("v", next(it)) if is_var else ("l", rng.randrange(0 if falsy else 1, 5)))
     pos = args[:k]
     kw = [(names[supplied[j]], args[j]) for j in range(k, len(supplied))]
     rng.shuffle(kw)
@@ -223,16 +236,21 @@ def _fill(rng, kind, n, nd, supplied, k, pattern, *, share=None, pre=None, neg=N
     for i in distinct:
         size = rng.randrange(1, max_dom + 1)
         doms[i] = rng.sample(range(1, 6), size)
+        if falsy and rng.random() < 0.8:
+            # number 0 = the falsy value of the flavour, at a random place of the domain
+            doms[i][rng.randrange(size)] = 0
     while _ncombos(doms, ids) > budget_:
         j = max(doms, key=lambda i: len(doms[i]))
         doms[j] = doms[j][:-1]
     if pre is None:
-        pre = [i for i in distinct if rng.random() < 0.2]
+        pre = [i for i in distinct if rng.random() < (0.7 if falsy else 0.2)]
         rng.shuffle(pre)
     if neg is None:
         neg = rng.random() < 0.25
     mod = rng.choice([2, 2, 3])
-    return Spec(kind, params, pos, kw, doms, pre, neg, rng.randrange(0, mod), mod, rng.choice(["obj", "obj", "int"]))
+    if vals is None:
+        vals = rng.choice(FALSY_FLAVOURS) if falsy else rng.choice(["obj", "obj", "int"])
+    return Spec(kind, params, pos, kw, doms, pre, neg, rng.randrange(0, mod), mod, vals)
 
 
 def _ncombos(doms, ids) -> int:
@@ -267,7 +285,47 @@ def generate(rng, tier, n):
         supplied, k = rng.choice(list(_call_shapes(ar, nd)))
         pattern = [rng.random() < 0.6 for _ in supplied]
         cases.append(mk_case(_fill(rng, kind, ar, nd, supplied, k, pattern, share=rng.random() < 0.5), "random"))
+    cases.extend(_falsy_cases(rng, tier))
     return cases
+
+
+def _falsy_cases(rng, tier) -> List[Case]:
+    """Arguments whose candidate values include FALSY ordinary objects (0, False, a falsy object, "", []): the
+    callable must be invoked for them like for any other value, in particular when the variable was already bound by
+    a conjunct to the left (a bound variable reports `is_false = not bool(value)`, which argument evaluation must
+    ignore), positively and under `not_`."""
+    out: List[Case] = []
+    # (a) small deterministic family: every kind x flavour x negation x bound-before / not, arity 1 and 2
+    for kind in ("fn", "method", "pred"):
+        for fl in FALSY_FLAVOURS:
+            for neg in (False, True):
+                for pre in ([0], []):
+                    for k in (0, 1):
+                        sp = _fill(rng, kind, 1, 0, [0], k, [True], share=False, pre=list(pre), neg=neg, falsy=True,
+                                   vals=fl)
+                        sp.doms = {0: [0, 1, 2]}
+                        out.append(mk_case(sp, "exhaustive"))
+                    # two parameters: the falsy variable next to a literal, to another variable, twice, to a default
+                    for pattern, nd, share in (([True, False], 0, False), ([True, True], 0, False),
+                                               ([True, True], 0, True), ([True], 1, False)):
+                        supplied = list(range(len(pattern)))
+                        sp = _fill(rng, kind, 2, nd, supplied, rng.randrange(0, len(pattern) + 1), pattern, share=share,
+                                   pre=None if pre else [], neg=neg, falsy=True, vals=fl)
+                        if pre and not sp.pre:
+                            sp.pre = [0]
+                        if 0 not in sp.doms[0]:
+                            sp.doms[0][0] = 0
+                        out.append(mk_case(sp, "exhaustive"))
+    # (b) random shapes
+    for _ in range(600 if tier == "quick" else 5000):
+        kind = rng.choice(["fn", "method", "pred", "pred"])
+        ar = rng.randrange(1, 5)
+        nd = rng.randrange(0, ar + 1)
+        supplied, k = rng.choice(list(_call_shapes(ar, nd)))
+        pattern = [rng.random() < 0.7 for _ in supplied]
+        out.append(mk_case(_fill(rng, kind, ar, nd, supplied, k, pattern, share=rng.random() < 0.3,
+                                 neg=rng.random() < 0.5, falsy=True), "random"))
+    return out
 
 
 def nontrivial(case: Case, spec: str) -> bool:
@@ -381,6 +439,18 @@ class _V:
         return f"V{self.code}"
 
 
+class _F(_V):
+    """an ordinary object that is falsy when its number is 0 (like an empty container)"""
+    __slots__ = ()
+
+    def __bool__(self):
+        return self.code != 0
+
+
+FALSY_FLAVOURS = ["int", "intF", "fobj", "str", "list"]
+"""value flavours in which number 0 is a falsy Python value: 0, False, a falsy object, "", []"""
+
+
 class _World:
     """per-case values, log and the dynamically built callable"""
 
@@ -392,13 +462,27 @@ class _World:
         self.returned: List[Any] = []
         self.pool: Dict[int, Any] = {}
         self.var_of: Dict[int, int] = {}  # id(variable object) -> variable number
-        self.T = _V if sp.vals == "obj" else int
+        self.T = {"obj": _V, "int": int, "intF": int, "fobj": _F, "str": str, "list": list}[sp.vals]
 
     def val(self, code: int):
-        if self.sp.vals == "int":
+        """the Python value with this number (one object per number and case)"""
+        fl = self.sp.vals
+        if fl == "int":
             return code
         if code not in self.pool:
-            self.pool[code] = _V(code)
+            if fl == "obj":
+                v: Any = _V(code)
+            elif fl == "fobj":
+                v = _F(code)
+            elif fl == "intF":
+                v = False if code == 0 else code
+            elif fl == "str":
+                v = "s" * code
+            elif fl == "list":
+                v = [None] * code
+            else:
+                raise ValueError(fl)
+            self.pool[code] = v
         return self.pool[code]
 
     def show(self, v) -> str:
@@ -408,15 +492,26 @@ class _World:
             return str(v.code)
         if isinstance(v, _Recv):
             return "0"
-        if isinstance(v, int) and not isinstance(v, bool):
+        fl = self.sp.vals
+        if fl == "int" and isinstance(v, int) and not isinstance(v, bool):
             return str(v)
+        if fl == "intF" and (v is False or (isinstance(v, int) and not isinstance(v, bool) and v != 0)):
+            return str(int(v))
+        if fl == "str" and isinstance(v, str) and v == "s" * len(v):
+            return str(len(v))
+        if fl == "list" and isinstance(v, list) and self.pool.get(len(v)) is v:
+            return str(len(v))
         return "other:" + type(v).__name__
 
     def code(self, v) -> int:
         if isinstance(v, _V):
             return v.code
-        if isinstance(v, int) and not isinstance(v, bool):
+        if isinstance(v, bool):
+            return int(v) if self.sp.vals == "intF" else 0
+        if isinstance(v, int):
             return v
+        if isinstance(v, (str, list)) and self.sp.vals in ("str", "list"):
+            return len(v)
         return 0
 
     def body(self, values: Tuple[Any, ...]):
@@ -464,7 +559,11 @@ def _build(w: _World):
             if d is None:
                 fields.append((n, object))
             else:
-                fields.append((n, object, dataclasses.field(default=ns[f"_d{j}"])))
+                dv = ns[f"_d{j}"]
+                if isinstance(dv, list):  # dataclasses refuse mutable defaults; the factory returns the same object
+                    fields.append((n, object, dataclasses.field(default_factory=lambda dv=dv: dv)))
+                else:
+                    fields.append((n, object, dataclasses.field(default=dv)))
 
         def __call__(self):
             return w.body(tuple(getattr(self, n) for n in names))
